@@ -17,7 +17,8 @@ static with interior mutability, no thread-local; R17.4 no write through a raw p
 construct that produces a *mut pointer (cast, &raw mut, as_mut_ptr); R17.5 no unsafe impl Send/Sync and the object traits require Send + Sync +
 UnwindSafe + RefUnwindSafe; R17.6 every &mut parameter of a function reachable from a search entry point has a caller-owned
 type; R17.7 pointer addresses are only observed as differences of two addresses (results cannot depend on where the
-haystack is allocated); R17.8 no call into process-global state (env, time, thread, fs, random). From these, with Rust's
+haystack is allocated); R17.8 no call into process-global state (env, time, thread, fs, random); R17.9 every Clone impl of a type in the searcher's field
+closure is the derived field-wise one and defines only `clone` (a clone is its source). From these, with Rust's
 guarantee that data behind &T without UnsafeCell is immutable in safe code and the read-only unsafe code, a search is a
 function of (*self, input, caller-owned state). A positive control containing every forbidden construct is compiled with the
 same extractor on every run and each rule must report it.
@@ -407,7 +408,25 @@ def r17_8(cx):
     cx.report('R17.8', 'crate', 'globals', not g, 'no call into std::env/time/thread/fs/process/net and no randomly seeded hash container')
 
 
-RULES = [('R15.7', r15_7), ('R17.1', r17_1), ('R17.2', r17_2), ('R17.3', r17_3), ('R17.4', r17_4), ('R17.5', r17_5), ('R17.6', r17_6), ('R17.7', r17_7), ('R17.8', r17_8)]
+def r17_9(cx):
+    """Clones: every Clone impl of a type in the searcher's field closure is the derived (field-wise) one and defines
+    nothing but `clone`: a hand-written clone / clone_from can leave a clone that differs from its source."""
+    found, visited = cell_paths(cx.facts, SEARCH_TYPES)
+    vs = {v.split('<')[0] for v in visited}
+    n = 0
+    for i in cx.facts.impls:
+        if i['trait_path'] != 'core::clone::Clone' or i['self_ty'].split('<')[0] not in vs:
+            continue
+        n += 1
+        items = sorted(x.rsplit('::', 1)[-1] for x in i['items'])
+        ok = bool(i.get('derived')) and items == ['clone']
+        cx.report('R17.9', i['self_ty'], 'derived-clone', ok, 'Clone is derived (field-wise) and defines only clone' if ok else
+                  'hand-written Clone impl (items %s) for a searcher type: a clone / clone_from that is not field-wise can differ from its source' % items,
+                  '%s:%s' % (i['loc'][0], i['loc'][1]))
+    cx.floor('R17.9', 'Clone impls in the searcher closure', n, 30 if cx.config in ('default', 'logging', 'perf') else 12)
+
+
+RULES = [('R15.7', r15_7), ('R17.1', r17_1), ('R17.2', r17_2), ('R17.3', r17_3), ('R17.4', r17_4), ('R17.5', r17_5), ('R17.6', r17_6), ('R17.7', r17_7), ('R17.8', r17_8), ('R17.9', r17_9)]
 THOROUGH_CONFIGS = ['default', 'std', 'perf', 'nodefault', 'logging']
 
 CLAIM = """Proof-style static argument: eight whole-crate premises (receivers, no interior mutability in the searcher type closure,
